@@ -672,6 +672,98 @@ static void compare3(const char *what, const Config &C, const Oracle &O, const s
   }
 }
 
+// ------------------------------------------------------------------ many cells per direction
+// Thin elongated orthorhombic / reduced triclinic boxes with 30..600 grid cells
+// in one direction (2..4 in the others), or two long directions with up to
+// ~150 x 150 cells; few beads, a good share of them within one cutoff of the
+// periodic faces of the long direction(s), on both sides, so that pairs
+// straddle the periodic boundary. The box is constructed so that the box
+// heights (not the edges) are cutoff*(N+frac).
+static const int kSpecialN[] = {31, 32, 33, 63, 64, 65, 127, 128, 129, 130, 131, 255, 256, 257, 300, 511, 512, 513};
+
+static void gen_config_many(vfh::Rng &r, Config &C, bool threebody) {
+  int n = threebody ? (int)r.range(20, 60) : (int)r.range(20, 200);
+  gen_config(r, C, n, threebody, n);  // types, molecules, interactions, exclusion switch
+  double c = r.logu(0.1, 1.0);
+  C.cutoff = c;
+  Box &B = C.B;
+  B.kind = r.coin() ? 1 : 2;
+  B.m.setZero();
+  int Nt[3];
+  bool lng[3] = {false, false, false};
+  bool two = r.coin(0.25);
+  int k1 = (int)r.range(0, 2), k2 = (k1 + 1 + (int)r.range(0, 1)) % 3;
+  for (int k = 0; k < 3; ++k) Nt[k] = (int)r.range(2, 4);
+  auto drawN = [&](int hi) {
+    if (r.coin(0.6)) {
+      for (int t = 0; t < 50; ++t) { int v = kSpecialN[(size_t)r.range(0, (long)(sizeof kSpecialN / sizeof kSpecialN[0]) - 1)]; if (v <= hi) return v; }
+    }
+    return (int)r.range(30, hi);
+  };
+  if (two) { Nt[k1] = drawN(150); Nt[k2] = drawN(150); lng[k1] = lng[k2] = true; if (threebody) { Nt[k1] = std::min(Nt[k1], 70); Nt[k2] = std::min(Nt[k2], 70); } }
+  else { Nt[k1] = drawN(600); lng[k1] = true; }
+  double l[3];
+  for (int k = 0; k < 3; ++k) {
+    int fm = (int)r.range(0, 9);
+    double fr = fm == 0 ? 0.02 : fm == 1 ? 0.98 : r.uni(0.05, 0.95);
+    l[k] = c * (Nt[k] + fr);
+  }
+  if (B.kind == 1) { B.m(0, 0) = l[0]; B.m(1, 1) = l[1]; B.m(2, 2) = l[2]; }
+  else {
+    auto t = [&]() { int cc = (int)r.range(0, 5); return cc == 0 ? 1.0 : cc == 1 ? -1.0 : r.uni(-1, 1); };
+    double cz = l[2];
+    double cy = 0.5 * t() * std::min(l[1], l[2]);
+    double by = l[1] * std::sqrt(cz * cz + cy * cy) / cz;
+    double bx = 0.5 * t() * std::min(l[0], l[1]), cx = 0.5 * t() * std::min(l[0], l[2]);
+    // b x c = (by cz, -bx cz, bx cy - by cx); height along a = ax by cz / |b x c|
+    double bxc = std::sqrt(by * cz * by * cz + bx * cz * bx * cz + (bx * cy - by * cx) * (bx * cy - by * cx));
+    double ax = l[0] * bxc / (by * cz);
+    B.m(0, 0) = ax; B.m(1, 1) = by; B.m(2, 2) = cz; B.m(0, 1) = bx; B.m(0, 2) = cx; B.m(1, 2) = cy;
+    if (bx == 0 && cx == 0 && cy == 0) B.m(0, 1) = 0.25 * std::min(l[0], l[1]);
+  }
+  B.derive();
+  // beads
+  C.pos.assign(n, Eigen::Vector3d::Zero());
+  double pface = r.uni(0.4, 0.8);
+  int nanch = (int)r.range(1, 6);
+  std::vector<Eigen::Vector3d> anchors;
+  for (int a = 0; a < nanch; ++a) {
+    Eigen::Vector3d f(r.uni(), r.uni(), r.uni());
+    for (int k = 0; k < 3; ++k) if (lng[k] && (!two || r.coin(0.7))) f[k] = 0.0;  // on the periodic face (edge, if both long directions)
+    if (two && f[k1] != 0.0 && f[k2] != 0.0) f[k1] = 0.0;
+    anchors.push_back(B.m * f);
+  }
+  long Rimg = r.coin(0.7) ? 0 : (r.coin() ? 1 : 3);
+  for (int i = 0; i < n; ++i) {
+    Eigen::Vector3d p;
+    if (r.coin(pface)) {
+      Eigen::Vector3d dir(r.normal(), r.normal(), r.normal());
+      if (dir.norm() == 0) dir = Eigen::Vector3d(1, 0, 0);
+      dir.normalize();
+      p = anchors[(size_t)r.range(0, nanch - 1)] + dir * (c * r.uni(0.0, 0.75));
+      // as it is (one side of the face lies outside the cell), or wrapped into the cell (then the partners sit at opposite ends)
+      if (r.coin(0.6)) {
+        V3 f = B.frac(ld(p));
+        p += B.m * Eigen::Vector3d(-(double)floorl(f.x), -(double)floorl(f.y), -(double)floorl(f.z));
+      }
+    } else if (i > 0 && r.coin(0.4)) {
+      Eigen::Vector3d dir(r.normal(), r.normal(), r.normal());
+      if (dir.norm() == 0) dir = Eigen::Vector3d(1, 0, 0);
+      dir.normalize();
+      int dm = (int)r.range(0, 5);
+      double dist = dm == 0 ? c * (1 - 1e-6) : dm == 1 ? c * (1 + 1e-6) : c * r.uni(0.0, 1.2);
+      p = C.pos[(size_t)r.range(0, i - 1)] + dir * dist;
+    } else {
+      Eigen::Vector3d f(r.uni(), r.uni(), r.uni());
+      for (int k = 0; k < 3; ++k) if (lng[k] && r.coin(0.3)) f[k] = r.coin() ? r.uni(0, 1.0 / Nt[k]) : 1 - r.uni(0, 1.0 / Nt[k]);  // first / last cell
+      p = B.m * f;
+    }
+    if (Rimg && r.coin(0.5)) p += B.m * Eigen::Vector3d((double)r.range(-Rimg, Rimg), (double)r.range(-Rimg, Rimg), (double)r.range(-Rimg, Rimg));
+    C.pos[(size_t)i] = p;
+  }
+  finalize(C);
+}
+
 // ------------------------------------------------------------------ reuse families
 // One search object is used for several Generate() calls in sequence: other
 // positions / box (incl. orthorhombic <-> triclinic on the same Topology
@@ -949,6 +1041,76 @@ int main(int argc, char **argv) {
     std::string tag = base + std::to_string(ic) + " --reuse3grid 1";
     vfh::set_case(tag);
     reuse_triples<NBListGrid_3Body>("reuse/grid3", rng, tag, R, (int)nmax3);
+  }
+  long nm = A.num("many", 0), nm3 = A.num("many3", 0), firstm = A.num("firstm", 0);
+  long maxcells = 0, maxgrid = 0;
+  auto many_counters = [&](const Config &C) {
+    long tot = 1;
+    for (int k = 0; k < 3; ++k) {
+      tot *= C.N[k];
+      maxcells = std::max(maxcells, (long)C.N[k]);
+      if (C.N[k] < 30) continue;
+      bool special = false;
+      for (int v : kSpecialN) if (v == C.N[k]) special = true;
+      if (special) R.counter("many_cells_per_dir_" + std::to_string(C.N[k]));
+      R.counter(C.N[k] < 64 ? "many_cells_per_dir_bucket_030_063" : C.N[k] < 128 ? "many_cells_per_dir_bucket_064_127" : C.N[k] < 256 ? "many_cells_per_dir_bucket_128_255"
+                : C.N[k] < 512 ? "many_cells_per_dir_bucket_256_511" : "many_cells_per_dir_bucket_512_600");
+    }
+    maxgrid = std::max(maxgrid, tot);
+    int nl = 0;
+    for (int k = 0; k < 3; ++k) if (C.N[k] >= 30) nl++;
+    R.counter(nl >= 2 ? "many_cells_configs_two_long_directions" : "many_cells_configs_one_long_direction");
+    R.counter(C.B.kind == 1 ? "many_cells_configs_orthorhombic" : "many_cells_configs_triclinic");
+  };
+  for (long ic = firstm; ic < firstm + nm; ++ic) {
+    rng.reseed(vfh::hmix(vfh::hmix(vfh::hmix(0xDC03, (uint64_t)seed), (uint64_t)shard), (uint64_t)ic));
+    Config C;
+    gen_config_many(rng, C, false);
+    C.tag = "c03 --seed " + std::to_string(seed) + " --shard " + std::to_string(shard) + " --n 0 --n3 0 --firstm " + std::to_string(ic) + " --many 1";
+    vfh::set_case(C.tag);
+    many_counters(C);
+    Oracle O;
+    build_oracle(C, O);
+    Topology top;
+    build_topology(C, top);
+    bool nontriv = false;
+    std::string sel = rng.coin(0.6) ? "*" : "A";
+    PairResult g1, s1, g2, s2;
+    long long before = R.counters["pairs_found_through_periodic_image"];
+    run_pairs<NBListGrid>("many-cells/grid/one-list", C, O, top, false, sel, R, g1, nontriv);
+    run_pairs<NBList>("many-cells/simple/one-list", C, O, top, false, sel, R, s1, nontriv);
+    compare_grid_simple("many-cells/one-list", C, O, g1.stored, s1.stored, R);
+    run_pairs<NBListGrid>("many-cells/grid/two-lists", C, O, top, true, "A", R, g2, nontriv);
+    run_pairs<NBList>("many-cells/simple/two-lists", C, O, top, true, "A", R, s2, nontriv);
+    compare_grid_simple("many-cells/two-lists", C, O, g2.stored, s2.stored, R);
+    R.counter("many_cells_pairs_across_a_periodic_face", R.counters["pairs_found_through_periodic_image"] - before);
+    if (nontriv) R.nontrivial(cfg_hash(C));
+  }
+  for (long ic = firstm; ic < firstm + nm3; ++ic) {
+    rng.reseed(vfh::hmix(vfh::hmix(vfh::hmix(0xEC03, (uint64_t)seed), (uint64_t)shard), (uint64_t)ic));
+    Config C;
+    gen_config_many(rng, C, true);
+    C.tag = "c03 --seed " + std::to_string(seed) + " --shard " + std::to_string(shard) + " --n 0 --n3 0 --firstm " + std::to_string(ic) + " --many3 1";
+    vfh::set_case(C.tag);
+    many_counters(C);
+    Oracle O;
+    build_oracle(C, O);
+    Topology top;
+    build_topology(C, top);
+    bool nontriv = false;
+    std::string sel = rng.coin(0.6) ? "*" : "A";
+    std::set<T3> g, s;
+    int nl = (int)rng.range(1, 3);
+    std::string sfx = nl == 1 ? "/one-list" : nl == 2 ? "/two-lists" : "/three-lists";
+    if (nl > 1) sel = "A";
+    run_triples<NBListGrid_3Body>(("many-cells/grid3" + sfx).c_str(), nl, C, O, top, sel, R, g, nontriv);
+    run_triples<NBList_3Body>(("many-cells/simple3" + sfx).c_str(), nl, C, O, top, sel, R, s, nontriv);
+    compare3(("many-cells/3body" + sfx).c_str(), C, O, g, s, R);
+    if (nontriv) R.nontrivial(cfg_hash(C));
+  }
+  if (nm + nm3 > 0) {
+    R.counter("max_cells_per_direction_shard_" + std::to_string(shard), maxcells);
+    R.counter("max_grid_cells_shard_" + std::to_string(shard), maxgrid);
   }
   R.summary();
   return 0;
